@@ -51,6 +51,19 @@ pub broadcast proof fn axiom_string_obeys_key_model()
     ensures #[trigger] vstd::std_specs::hash::obeys_key_model::<String>()
 { }
 
+// A-std: a String is determined by its content (implied by the key-model assumption above: String's Eq/Hash are by content)
+#[verifier::external_body]
+pub proof fn axiom_string_ext(a: String, b: String)
+    requires a@ == b@
+    ensures a == b
+{ }
+
+// R-emit: opaque token values (the CONTENT of emitted token streams is outside the claim)
+#[verifier::external_body]
+pub fn gv_tokens() -> TokenStream { unimplemented!() }
+#[verifier::external_body]
+pub fn gv_error() -> syn::Error { unimplemented!() }
+
 // R-drain: `v.drain(..)` (full range, consumed by a for loop) -> gecs_drain_all(&mut v): the elements in order, v left empty
 #[verifier::external_body]
 pub fn gecs_drain_all<T>(v: &mut Vec<T>) -> (r: Vec<T>)
